@@ -280,16 +280,16 @@ theorem validateWeights_ok_iff (ws : List R) : validateWeights ws = .ok () ↔ V
         intro w hw
         obtain ⟨p, hp, rfl⟩ := enumL_snd_mem _ w hw
         exact hall p hp
-      simp only [RealLike.gt]
-      by_cases hs : RealLike.lt (1E-12 : R) (RealLike.abs (s' - (1.0 : R))) = true
-      · rw [if_pos hs]
-        rw [R.lt_iff, R.abs_val, R.sub_val, R_one_val, R_tol_val, h2] at hs
+      by_cases hs : RealLike.le (RealLike.abs (s' - (1.0 : R))) (1E-12 : R) = true
+      · simp only [hs, Bool.not_true, Bool.false_eq_true, if_false]
+        rw [R.le_iff, R.abs_val, R.sub_val, R_one_val, R_tol_val, h2] at hs
+        exact ⟨fun _ => ⟨hall', hs⟩, fun _ => trivial⟩
+      · have hs' : RealLike.le (RealLike.abs (s' - (1.0 : R))) (1E-12 : R) = false := by simpa using hs
+        simp only [hs', Bool.not_false, if_true]
+        rw [R.le_iff, R.abs_val, R.sub_val, R_one_val, R_tol_val, h2] at hs
         constructor
         · intro h; cases h
-        · rintro ⟨_, h⟩; exact absurd h (not_le.mpr hs)
-      · rw [if_neg hs]
-        rw [R.lt_iff, R.abs_val, R.sub_val, R_one_val, R_tol_val, h2] at hs
-        exact ⟨fun _ => ⟨hall', not_lt.mp hs⟩, fun _ => rfl⟩
+        · rintro ⟨_, h⟩; exact absurd h hs
 
 example : validateWeights [(⟨0.25⟩ : R), ⟨0⟩, ⟨0.75⟩] = .ok () := by
   rw [validateWeights_ok_iff]
@@ -327,13 +327,12 @@ theorem validateWeights_error (ws : List R) (e : Err R) (h : validateWeights ws 
         intro w hw
         obtain ⟨p, hp, rfl⟩ := enumL_snd_mem _ w hw
         exact hall p hp
-      simp only [RealLike.gt] at h
-      by_cases hs : RealLike.lt (1E-12 : R) (RealLike.abs (s' - (1.0 : R))) = true
-      · rw [if_pos hs] at h
-        rw [R.lt_iff, R.abs_val, R.sub_val, R_one_val, R_tol_val, h2] at hs
-        simp only [Except.error.injEq] at h
-        exact ⟨by simp, hall', hs, by rw [← h]⟩
-      · rw [if_neg hs] at h; cases h
+      by_cases hs : RealLike.le (RealLike.abs (s' - (1.0 : R))) (1E-12 : R) = true
+      · simp only [hs, Bool.not_true, Bool.false_eq_true, if_false] at h; cases h
+      · have hs' : RealLike.le (RealLike.abs (s' - (1.0 : R))) (1E-12 : R) = false := by simpa using hs
+        simp only [hs', Bool.not_false, if_true, Except.error.injEq] at h
+        rw [R.le_iff, R.abs_val, R.sub_val, R_one_val, R_tol_val, h2] at hs
+        exact ⟨by simp, hall', not_le.mp hs, by rw [← h]⟩
 
 /-- the weight invariant of a mixture: non-negative weights summing to one within `1e-12`, as many weights as
     components, at least one component -/
@@ -864,30 +863,14 @@ theorem single_lnF (c : Comp X Ob) (x : Ob) (h : IsFinOrNinf (c.lnF x)) :
 
 example : lnF (⟨[fin 1], [xComp (fin (-7))]⟩ : Mix X Unit) () = fin (-7) := single_lnF _ _ (by simp [xComp])
 
-/-! ## (g) `validate_weights` over `X`: NaN weights -/
+/-! ## (g) `validate_weights` over `X`: NaN and infinite weights are rejected -/
 
 -- @site validate_weights
-/-- DEFECT.  `validate_weights` ACCEPTS a NaN weight: `NaN < 0.0` is false, the sum becomes NaN and
-    `(NaN - 1.0).abs() > 1e-12` is false as well.  Hence `Mixture::new(vec![NaN], vec![c])` returns `Ok`,
-    and so does `new(vec![0.5, NaN], …)`: the documented invariant ("All entries must be positive and sum to 1")
-    is not established. -/
-theorem validateWeights_nan_counterexample :
-    validateWeights [X.nan] = .ok () ∧ validateWeights [fin (1/2), X.nan] = .ok () ∧
-    ∀ c1 c2 : Comp X Ob, new [fin (1/2), X.nan] [c1, c2] = .ok ⟨[fin (1/2), X.nan], [c1, c2]⟩ := by
-  have h1 : validateWeights [X.nan] = .ok () := by
-    simp [validateWeights, enumL, tryFoldE]
-  have h2 : validateWeights [fin (1/2), X.nan] = .ok () := by
-    simp [validateWeights, enumL, tryFoldE, List.range_succ]
-    norm_num
-  refine ⟨h1, h2, ?_⟩
-  intro c1 c2
-  simp only [new, List.isEmpty_cons, Bool.false_eq_true, if_false, List.length_cons, List.length_nil,
-    bne_self_eq_false, h2]
-
--- @site validate_weights
-/-- NaN is the ONLY leak: on a weight vector without NaN (`±inf` allowed) `validate_weights` accepts exactly
-    the non-empty vectors of finite non-negative weights whose sum is within `1e-12` of one -/
-theorem validateWeights_X_ok_iff (ws : List X) (hn : ∀ w ∈ ws, w ≠ X.nan) :
+/-- on EVERY weight vector over `X` (NaN, `±inf` included) `validate_weights` accepts exactly the non-empty vectors
+    of finite non-negative weights whose sum is within `1e-12` of one.  (Before the repair "Mixture weight
+    validation rejects NaN weights" the test was `(sum - 1.0).abs() > 1E-12`, false on a NaN sum, and a NaN weight
+    was accepted; the test is now `!((sum - 1.0).abs() <= 1E-12)`, mixture.rs:121.) -/
+theorem validateWeights_X_ok_iff (ws : List X) :
     validateWeights ws = .ok () ↔
       ws ≠ [] ∧ (∀ w ∈ ws, NonnegFin w) ∧ |(ws.map X.toReal).sum - 1| ≤ 1e-12 := by
   rw [validateWeights_unfold]
@@ -896,21 +879,18 @@ theorem validateWeights_X_ok_iff (ws : List X) (hn : ∀ w ∈ ws, w ≠ X.nan) 
   | cons w0 t =>
     simp only [List.isEmpty_cons, Bool.false_eq_true, if_false, ne_eq, reduceCtorEq, not_false_eq_true,
       true_and]
-    have hn' : ∀ p ∈ enumL (w0 :: t), p.2 ≠ X.nan := fun p hp => hn p.2 (enumL_mem_snd _ p hp)
     constructor
     · intro h
       cases hf : tryFoldE vwStep (0.0 : X) (enumL (w0 :: t)) with
       | error e => rw [hf] at h; cases h
       | ok s' =>
         rw [hf] at h
-        obtain ⟨h1, h2⟩ := vwFold_ok _ (0.0 : X) s' (Or.inr ⟨0, X_zero⟩) hn' hf
+        obtain ⟨_, h2⟩ := vwFold_ok_any _ (0.0 : X) s' (Or.inr ⟨0, X_zero⟩) hf
         have hall : ∀ p ∈ enumL (w0 :: t), NonnegFin p.2 := by
-          intro p hp
-          rcases h1 p hp with hp' | hp'
-          · exact hp'
+          rcases h2 ⟨0, X_zero⟩ with hall | hbad
+          · exact hall
           · exfalso
-            rw [h2 (Or.inr ⟨p, hp, hp'⟩), X_one] at h
-            simp [RealLike.gt] at h
+            rcases hbad with rfl | rfl <;> simp [X_one] at h
         have hall' : ∀ w ∈ w0 :: t, NonnegFin w := by
           intro w hw
           obtain ⟨p, hp, rfl⟩ := enumL_snd_mem _ w hw
@@ -919,28 +899,77 @@ theorem validateWeights_X_ok_iff (ws : List X) (hn : ∀ w ∈ ws, w ≠ X.nan) 
         rw [X_zero, vwFold_fin _ 0 hall, enumL_sum_X, zero_add] at hf
         simp only [Except.ok.injEq] at hf
         rw [← hf, X_one] at h
-        simp only [RealLike.gt, X.fin_sub_fin, X.abs_fin, X.sci_eq, X.lt_fin] at h
         by_contra hc
-        rw [not_le] at hc
-        simp only [decide_eq_true_eq] at h
-        rw [if_pos hc] at h
-        cases h
+        have : RealLike.le (RealLike.abs (fin (List.map X.toReal (w0 :: t)).sum - fin 1)) (1E-12 : X) = false := by
+          simp only [X.fin_sub_fin, X.abs_fin, X.sci_eq, X.le_fin]
+          simpa using hc
+        simp only [this, Bool.not_false, reduceIte, reduceCtorEq] at h
     · rintro ⟨hall, hsum⟩
       have hall' : ∀ p ∈ enumL (w0 :: t), NonnegFin p.2 := fun p hp => hall p.2 (enumL_mem_snd _ p hp)
       rw [X_zero, vwFold_fin _ 0 hall', enumL_sum_X, zero_add, X_one]
-      simp only [RealLike.gt, X.fin_sub_fin, X.abs_fin, X.sci_eq, X.lt_fin]
-      simp only [decide_eq_true_eq]
-      rw [if_neg (not_lt.mpr hsum)]
+      have : RealLike.le (RealLike.abs (fin (List.map X.toReal (w0 :: t)).sum - fin 1)) (1E-12 : X) = true := by
+        simp only [X.fin_sub_fin, X.abs_fin, X.sci_eq, X.le_fin]
+        simpa using hsum
+      simp only [this, Bool.not_true, Bool.false_eq_true, if_false]
 
 example : validateWeights [fin (1/4), fin 0, fin (3/4)] = .ok () := by
-  rw [validateWeights_X_ok_iff _ (by simp)]
+  rw [validateWeights_X_ok_iff]
   refine ⟨by simp, ?_, by norm_num⟩
   intro w hw; simp at hw
   rcases hw with rfl | rfl | rfl <;> exact ⟨_, rfl, by norm_num⟩
 
-/-- `+inf` is rejected (when no NaN is present) -/
+-- @site validate_weights
+/-- a NaN weight (anywhere, whatever the other weights) is rejected: `new`, `set_weights`, `try_from` report an
+    error — `WeightTooLow` if a negative weight precedes the point where the fold stops, else
+    `WeightsDoNotSumToOne` -/
+theorem validateWeights_nan_rejected (ws : List X) (h : X.nan ∈ ws) : ∃ e, validateWeights ws = .error e := by
+  cases hv : validateWeights ws with
+  | error e => exact ⟨e, rfl⟩
+  | ok u =>
+    exfalso
+    obtain ⟨_, hall, _⟩ := (validateWeights_X_ok_iff ws).mp hv
+    obtain ⟨a, ha, _⟩ := hall X.nan h
+    cases ha
+
+example : ∃ e, validateWeights [fin (1/2), X.nan] = .error e := validateWeights_nan_rejected _ (by simp)
+
+-- @site validate_weights
+/-- the variant reported for the former witnesses `[NaN]`, `[0.5, NaN]` -/
+theorem validateWeights_nan_variant :
+    (∃ e, validateWeights [X.nan] = .error e ∧ e.variant = "WeightsDoNotSumToOne") ∧
+    (∃ e, validateWeights [fin (1/2), X.nan] = .error e ∧ e.variant = "WeightsDoNotSumToOne") := by
+  constructor
+  · refine ⟨Err.mk "WeightsDoNotSumToOne" [X.nan], ?_, rfl⟩
+    simp [validateWeights, enumL, tryFoldE]
+  · refine ⟨Err.mk "WeightsDoNotSumToOne" [X.nan], ?_, rfl⟩
+    norm_num [validateWeights, enumL, tryFoldE, List.range_succ, real00]
+
+-- @site Mixture::new
+/-- consequently `new` rejects NaN weights: a mixture built by `new` has finite non-negative weights -/
+theorem new_X_ok (ws : List X) (cs : List (Comp X Ob)) (m : Mix X Ob) (h : new ws cs = .ok m) :
+    m = ⟨ws, cs⟩ ∧ cs.length = ws.length ∧ (∀ w ∈ ws, NonnegFin w) ∧ |(ws.map X.toReal).sum - 1| ≤ 1e-12 := by
+  unfold new at h
+  split_ifs at h with h1 h2 h3
+  have hl : cs.length = ws.length := by simpa using h3
+  cases hv : validateWeights ws with
+  | error e => rw [hv] at h; cases h
+  | ok u =>
+    rw [hv] at h
+    simp only [Except.ok.injEq] at h
+    obtain ⟨_, hall, hsum⟩ := (validateWeights_X_ok_iff ws).mp hv
+    exact ⟨h.symm, hl, hall, hsum⟩
+
+example (c1 c2 : Comp X Ob) : ∃ e, new [fin (1/2), X.nan] [c1, c2] = .error e := by
+  cases h : new [fin (1/2), X.nan] [c1, c2] with
+  | error e => exact ⟨e, rfl⟩
+  | ok m =>
+    obtain ⟨_, _, hall, _⟩ := new_X_ok _ _ m h
+    obtain ⟨a, ha, _⟩ := hall X.nan (by simp)
+    cases ha
+
+/-- `+inf` is rejected as well -/
 example : validateWeights [fin (1/4), X.pinf] ≠ .ok () := by
-  rw [Ne, validateWeights_X_ok_iff _ (by simp)]
+  rw [Ne, validateWeights_X_ok_iff]
   rintro ⟨_, h, _⟩
   obtain ⟨a, ha, _⟩ := h X.pinf (by simp)
   cases ha
@@ -1040,7 +1069,9 @@ end C11
 #print axioms C11.lnF_eq_ln_f
 #print axioms C11.lnPdf_X
 #print axioms C11.single_lnF
-#print axioms C11.validateWeights_nan_counterexample
+#print axioms C11.validateWeights_nan_rejected
+#print axioms C11.validateWeights_nan_variant
+#print axioms C11.new_X_ok
 #print axioms C11.validateWeights_X_ok_iff
 #print axioms C11.drawIndex_lt
 #print axioms C11.drawComp_isSome
